@@ -164,3 +164,75 @@ Section FlipN.
     repeat split; try reflexivity; apply Z.mod_pos_bound; lia.
   Qed.
 End FlipN.
+
+(* ---- the complaint list handed to Reconstruct is sorted and duplicate-free whatever the arrival order --------------------- *)
+Inductive sorted : list Z -> Prop :=
+| sorted_nil : sorted []
+| sorted_one x : sorted [x]
+| sorted_cons x y r : x <= y -> sorted (y :: r) -> sorted (x :: y :: r).
+
+Lemma ins_sorted_in x l z : In z (ins_sorted x l) <-> z = x \/ In z l.
+Proof.
+  induction l as [|y r IH]; cbn [ins_sorted]; [cbn; intuition|].
+  destruct (x <=? y); cbn [In]; [intuition|]. rewrite IH. intuition.
+Qed.
+Lemma ins_sorted_sorted x l : sorted l -> sorted (ins_sorted x l).
+Proof.
+  induction 1 as [|y|y z r Hyz Hs IH]; cbn [ins_sorted].
+  - constructor.
+  - destruct (Z.leb_spec x y); repeat constructor; lia.
+  - destruct (Z.leb_spec x y); [repeat constructor; assumption || lia|].
+    cbn [ins_sorted] in IH. destruct (Z.leb_spec x z); constructor; try lia; try assumption.
+Qed.
+Lemma sort_z_in l z : In z (sort_z l) <-> In z l.
+Proof. induction l as [|x r IH]; cbn [sort_z fold_right]; [reflexivity|]. fold (sort_z r). rewrite ins_sorted_in, IH. cbn. intuition. Qed.
+Lemma sort_z_sorted l : sorted (sort_z l).
+Proof. induction l as [|x r IH]; cbn [sort_z fold_right]; [constructor|]. now apply ins_sorted_sorted. Qed.
+
+Lemma uniq_adj_in l z : In z (uniq_adj l) <-> In z l.
+Proof.
+  induction l as [|x r IH]; [reflexivity|]. cbn [uniq_adj]. destruct r as [|y r']; [reflexivity|].
+  destruct (Z.eqb_spec x y) as [->|N].
+  - rewrite IH. cbn [In]. intuition.
+  - cbn [In] in *. rewrite IH. reflexivity.
+Qed.
+Lemma sorted_head_le x l z : sorted (x :: l) -> In z l -> x <= z.
+Proof.
+  revert x. induction l as [|y r IH]; intros x H Hin; [contradiction|]. inversion H; subst.
+  destruct Hin as [<-|Hin]; [assumption|]. specialize (IH y H4 Hin). lia.
+Qed.
+Lemma sorted_tail x l : sorted (x :: l) -> sorted l.
+Proof. inversion 1; [constructor|assumption]. Qed.
+Lemma uniq_adj_nodup l : sorted l -> NoDup (uniq_adj l) /\ sorted (uniq_adj l) /\ (forall x r, l = x :: r -> exists r', uniq_adj l = x :: r' /\ forall z, In z r' -> x < z).
+Proof.
+  induction l as [|x r IH]; intros Hs.
+  - repeat split; try constructor. intros; discriminate.
+  - specialize (IH (sorted_tail x r Hs)). destruct IH as (ND & SO & HD).
+    cbn [uniq_adj]. destruct r as [|y r'].
+    + split; [constructor; [intros []|constructor]|]. split; [constructor|]. intros x0 r0 [= <- <-]. exists []. split; [reflexivity|intros z []].
+    + destruct (HD y r' eq_refl) as (t' & Et & Hlt).
+      assert (Hxy : x <= y) by (inversion Hs; assumption).
+      destruct (Z.eqb_spec x y) as [->|N].
+      * repeat split; try assumption. intros x0 r0 [= <- <-]. exists t'. split; [exact Et|exact Hlt].
+      * assert (Hall : forall z, In z (uniq_adj (y :: r')) -> x < z).
+        { intros z Hz. rewrite Et in Hz. destruct Hz as [<-|Hz]; [lia|]. specialize (Hlt z Hz). lia. }
+        repeat split.
+        -- constructor; [|assumption]. intros Hin. specialize (Hall x Hin). lia.
+        -- rewrite Et in *. constructor; [lia|assumption].
+        -- intros x0 r0 [= <- <-]. eexists. split; [reflexivity|exact Hall].
+Qed.
+
+Theorem complaint_set_spec raw : NoDup (complaint_set raw) /\ sorted (complaint_set raw) /\ forall z, In z (complaint_set raw) <-> In z raw.
+Proof.
+  unfold complaint_set. destruct (uniq_adj_nodup (sort_z raw) (sort_z_sorted raw)) as (ND & SO & _).
+  repeat split; try assumption; intros H; [apply sort_z_in, uniq_adj_in; exact H|apply uniq_adj_in, sort_z_in; exact H].
+Qed.
+
+(* consequence: with at most t distinct members complained about, the list never exceeds t, however often each was pushed *)
+Lemma NoDup_incl_len (l m : list Z) : NoDup l -> incl l m -> (length l <= length m)%nat.
+Proof. intros. now apply NoDup_incl_length. Qed.
+Theorem complaint_set_bound raw targets : (forall z, In z raw -> In z targets) -> (length (complaint_set raw) <= length targets)%nat.
+Proof.
+  intros H. destruct (complaint_set_spec raw) as (ND & _ & I). apply NoDup_incl_len; [assumption|].
+  intros z Hz. apply H. now apply I.
+Qed.
